@@ -121,6 +121,28 @@ def check_stencils(prob, mode, spec, fdlog, stats):
         stats.bump("differencing-requests-compared-with-scipy", judged)
 
 
+def scheme_is_accurate(prob, mode, spec, points):
+    """Does the *requested* differencing scheme (as SciPy computes it, independently of the package) resolve the gradient at
+    the given iterates?  A user-chosen relative step degenerates at a component that is tiny but not zero (h = rel*|x_i|
+    = 1e-26: the difference quotient is 0/h), and then "the accuracy of the differencing scheme" is nil -- the optimal
+    value cannot be expected to match."""
+    from scipy.optimize._numdiff import approx_derivative
+
+    lb, ub = prob.lb, prob.ub
+    opts = requested_scheme(mode, spec)
+    free = lb != ub
+    for x in points:
+        x = np.clip(np.asarray(x, dtype=float), lb, ub)
+        try:
+            gfd = approx_derivative(lambda z: prob.obj.f(np.clip(z, lb, ub) if not np.iscomplexobj(z) else z), x, f0=prob.obj.f(x), bounds=(lb, ub), **opts)
+        except Exception:
+            return False
+        gex = np.asarray(prob.obj.g(x), dtype=float)
+        if not np.all(np.isfinite(gfd[free])) or float(np.max(np.abs(gfd[free] - gex[free]), initial=0.0)) > 1e-4 * (1.0 + float(np.max(np.abs(gex), initial=0.0))):
+            return False
+    return True
+
+
 def polluter(spec):
     """A run made just before the judged one, with other differencing options and another size: it must leave nothing behind."""
     b = spec.get("before")
@@ -179,11 +201,17 @@ def check(spec, stats=None):
         f_fd = float(prob.obj.f(tr.res["x"]))
         f_ex = float(prob.obj.f(ex.res["x"]))
         tol = 1e-6 * (1.0 + abs(f_ex))
-        if stats is not None:
-            stats.maxi("max_value_gap_over_tol", (f_fd - f_ex) / tol)
-        require(abs(f_fd - f_ex) <= tol, "value-matches-exact-gradient-run",
-                f"jac={mode!r}: f_FD={f_fd!r} ({tr.res['message']}) vs f_exact={f_ex!r} ({ex.res['message']}); gap {f_fd - f_ex:.3e} > {tol:.1e}")
-        compared = True
+        if abs(f_fd - f_ex) > tol and not scheme_is_accurate(prob, mode, spec, [np.clip(prob.x0, lb, ub)] + [c["xk"] for c in tr.cb[-30:]] + [tr.res["x"]]):
+            # "to the accuracy of the differencing scheme": here the scheme the caller asked for does not resolve the gradient at
+            # some iterate of the run (the package evaluated exactly the requested stencil -- that is judged above)
+            if stats is not None:
+                stats.bump("requested-scheme-does-not-resolve-the-gradient(value clause not judged)")
+        else:
+            if stats is not None:
+                stats.maxi("max_value_gap_over_tol", (f_fd - f_ex) / tol)
+            require(abs(f_fd - f_ex) <= tol, "value-matches-exact-gradient-run",
+                    f"jac={mode!r}: f_FD={f_fd!r} ({tr.res['message']}) vs f_exact={f_ex!r} ({ex.res['message']}); gap {f_fd - f_ex:.3e} > {tol:.1e}")
+            compared = True
     if stats is not None:
         touched = any(bool(np.any(((c["xk"] == lb) | (c["xk"] == ub)) & (lb != ub))) for c in tr.cb) or bool(np.any(((np.clip(prob.x0, lb, ub) == lb) | (np.clip(prob.x0, lb, ub) == ub)) & (lb != ub)))
         active = bool(np.any(((tr.res["x"] == lb) | (tr.res["x"] == ub))))
